@@ -93,7 +93,11 @@ ASBUILT = {
   `sample_configuration` overwriting the caller's record, `magnetization('Y')` sign (§5); known: one-site
   non-unitary gate off the centre leaves the record stale (§5.2). L = 4 histories of length 3 with two
   decompositions are the heaviest certificates (minutes); those that exceed the budget are inconclusive, never
-  counted.""",
+  counted.
+  Third round: the `consumer` family also runs on **complex** canonical states (conjugate-pair symbols, the record's
+  isometry hypotheses `A†A = I` and their conjugates) with complex operators: one- and two-site expectations in both site orders,
+  reduced states, `magnetization` in X / Y / Z, one-site gates, Schmidt values, forced measurement, sums of local terms
+  (36 cells, ≈ 30 s; reverting the `magnetization('Y')` repair is now reported by the solver, not only by the numeric run).""",
 "C09": """* **As built** (`props/c09.py`, sub-agent + review; 117 quick, ≈ 70 s): 35 families (constructors incl. site
   subsets, from_dense, fill functions, arithmetic, apply, overlaps, traces, partial traces, Schmidt routines,
   `compress_exact`, `compress_capped`, `class_compress`, `sweep_compress`, `compress_options`,
